@@ -69,6 +69,22 @@ SUSPEND_QUERIES = [
 ]
 
 
+# different queries built around one textually equal sub-expression: what an
+# "intern / deduplicate equal sub-queries at compile time" optimisation would share
+SHARED_SUBEXPR = ("$..a", "$..b", "$.*", "$[*]", "$..*", "$.a[*]", "$..b[*]", "$..[0]", "@..a", "@.*", "@[*]", "@..*")
+SHARED_FRAMES = (
+    "$[?count({e}) > 1]", "$..[?{e}]", "$[?value({e}) == @.a]", "$.a[?count({e}) > @.b]", "$[?!{e}]", "$[*][?count({e}) > 2 || @.a]",
+    "$..[?count({e}) > length(@)]", "$.b[?{e} && @.a]", "$[?count({e}) == count(@.*)]", "$[?{e}, ?count({e}) > 3]",
+)
+
+
+def query_family(rng, n: int) -> List[str]:
+    e = rng.choice(SHARED_SUBEXPR)
+    frames = list(SHARED_FRAMES)
+    rng.shuffle(frames)
+    return [f.format(e=e) for f in frames[:n]]
+
+
 def perturb(rng, v: Any) -> Any:
     """Same shape, different content."""
     if isinstance(v, list):
@@ -98,7 +114,7 @@ def import_state(st: Dict[str, Any]) -> None:
 def plan(tier: str) -> Dict[str, Any]:
     if tier == "thorough":
         return {"runs": 400_000, "chunk": 200, "budget_s": 780, "chunk_hard_s": 900, "minimise_s": 90}
-    return {"runs": 6_500, "chunk": 50, "budget_s": 50, "chunk_hard_s": 300, "minimise_s": 40}
+    return {"runs": 6_000, "chunk": 50, "budget_s": 50, "chunk_hard_s": 300, "minimise_s": 40}
 
 
 def gen_fspec(rng) -> Dict[str, Any]:
@@ -156,6 +172,68 @@ def gen_mutation(rng, shadow: Dict[str, Any]):
         else:
             return None
     return {"op": "mutate_doc", "doc": did, "path": list(loc), **op}
+
+
+def _universe() -> List[str]:
+    """A fixed universe of ~420 cheap, distinct, valid query texts (independent of any seed, so
+    golden results are shared between long histories through the worker's memo)."""
+    out = []
+    names = ("a", "b", "c", "d")
+    for a in names:
+        out += [f"$.{a}", f"$..{a}", f"$['{a}']", f"$[?@.{a}]", f"$.{a}[0]", f"$.{a}.*", f"$..{a}[*]", f"$[?@.{a} > 1]", f"$[?@.{a} == 'a']", f"$.{a}[-1]"]
+        for b in names:
+            out += [f"$.{a}.{b}", f"$..{a}.{b}", f"$.{a}[?@.{b}]", f"$['{a}', '{b}']", f"$.{a}..{b}", f"$[?@.{a} == @.{b}]", f"$[?@.{a} < $.{b}]"]
+            for c in names:
+                out.append(f"$.{a}.{b}.{c}")
+                out.append(f"$[?@.{a} && @.{b} || @.{c}]")
+    for a in names:
+        for b in names:
+            for i in (0, 1, -1):
+                out += [f"$.{a}[{i}].{b}", f"$..{a}[{i}]['{b}']", f"$.{a}.{b}[{i}:]", f"$[?@.{a}[{i}] == @.{b}]", f"$.{a}[?@[{i}] != $.{b}]"]
+    for i in range(-3, 4):
+        out += [f"$[{i}]", f"$..[{i}]", f"$[{i}:]", f"$[:{i}]", f"$[?@[{i}]]"]
+        for j in (1, 2, -1):
+            out += [f"$[{i}::{j}]", f"$[{i}, {j}]"]
+    seen, uniq = set(), []
+    for q in out:
+        if q not in seen:
+            seen.add(q)
+            uniq.append(q)
+    return uniq
+
+
+UNIVERSE = _universe()
+
+
+def gen_long_history(rng, thorough: bool = False) -> Dict[str, Any]:
+    """VOLUME within one process: hundreds of compiles of several hundred distinct texts, with
+    repeats, over one small document and two environments -- what bounded caches, periodic
+    clean-ups and growing tables need before their eviction/overflow paths run."""
+    ops: List[Dict[str, Any]] = []
+    tree = D.random_tree(rng, max_nodes=20, max_depth=3, p_dict=0.7)
+    if not isinstance(tree, dict):
+        tree = {"a": tree, "b": [1, {"a": "a"}], "c": {"a": 1, "b": 2}}
+    ops.append({"op": "new_doc", "id": "d0", "spec": {"json": tree}})
+    ops.append({"op": "new_env", "id": "e0", "spec": {"funcs": []}})
+    envs = ["module", "e0"]
+    pool = list(UNIVERSE)
+    rng.shuffle(pool)
+    pool = pool[: rng.choice((140, 300, 560) if not thorough else (300, 560, len(pool)))]
+    hot = pool[: rng.choice((3, 10, 40))]  # texts that are compiled again and again
+    n = rng.choice((300, 600, 900) if not thorough else (900, 1800, 2600))
+    k = 0
+    for _ in range(n):
+        q = rng.choice(hot) if rng.random() < 0.35 else rng.choice(pool)
+        e = rng.choice(envs)
+        r = rng.random()
+        if r < 0.75:
+            ops.append({"op": "compile", "id": f"c{k}", "env": e, "q": q})
+            if rng.random() < 0.25:
+                ops.append({"op": "apply", "c": f"c{k}", "doc": "d0", "entry": "find"})
+            k += 1
+        else:
+            ops.append({"op": "env_call", "env": e, "q": q, "doc": "d0", "entry": rng.choice(("find", "find_one"))})
+    return {"knobs": {"regex_maxcache": None}, "ops": ops, "faults": False, "long": True}
 
 
 def gen_history(rng, faults: bool) -> Dict[str, Any]:
@@ -219,6 +297,8 @@ def gen_history(rng, faults: bool) -> Dict[str, Any]:
         e = rng.choice(envs)
         return Q.render(Q.gen_query(rng, _features_for(envspecs[e], rng), 0, 1))
 
+    if rng.random() < 0.3:
+        qpool.extend(query_family(rng, rng.choice((2, 3))))
     for _ in range(rng.choice((1, 2, 3, 4))):
         q = new_query()
         qpool.append(q)
@@ -330,12 +410,18 @@ def violations_of(m: machine.Machine, history: Dict[str, Any], sseed: int) -> Li
 def run_one(seed: int, tier: str, index: int) -> Dict[str, Any]:
     rng = seeds.stream(seed, "workload")
     faults = index % 2 == 1  # fault-free and fault-bearing configurations are separate
-    history = gen_history(rng, faults)
+    if index % 50 == 7:
+        history = gen_long_history(rng, tier == "thorough")
+    else:
+        history = gen_history(rng, faults)
     sseed = seeds.stream(seed, "choices").getrandbits(48)
     m = execute(history, sseed)
     st = dict(m.stats)
     st["histories_fault_bearing" if history["faults"] else "histories_fault_free"] = 1
     st["ops"] = len(history["ops"])
+    if history.get("long"):
+        st["histories_long_volume"] = 1
+        st["long_distinct_query_texts"] = len({o["q"] for o in history["ops"] if "q" in o})
     if history["knobs"].get("regex_maxcache"):
         st["knob_small_regex_cache"] = 1
     nontrivial = m.stats["envs_created"] >= 1 and m.stats["judged_ops"] >= 2
